@@ -85,6 +85,7 @@ class Run:
         self.waiting = []        # Waiter objects in registration order (not yet called)
         self.decimal = bool(case.get('decimal'))
         self.held = []           # reservations made by the script / callbacks
+        self.spent = []          # holder objects that were given back completely
         self.nreg = 0
         self.failed = False
         self.in_pass = False
@@ -171,6 +172,16 @@ class Run:
             if self.held:
                 r = self.held.pop(op[1] % len(self.held))
                 r.release()
+                self.spent.append(r)
+        elif kind == 'reuse':
+            # a holder object that was given back completely is used again: a fresh reservation is merged into it
+            # (it is the holder that counts from now on; the fresh object is left empty)
+            if self.held and self.spent:
+                fresh = self.held.pop(op[1] % len(self.held))
+                old = self.spent.pop(op[1] % len(self.spent))
+                old.merge(fresh)
+                self.held.append(old)
+                self.sh.count('released_holders_refilled_by_merge')
         elif kind == 'add':
             try:
                 self.rm.add_resources(op[1], op[2])
@@ -382,6 +393,9 @@ def gen_case(rng, tie, decimal=False):
             op = ['reserve', req()]
         elif x < 0.8:
             op = ['release', rng.randrange(4)]
+            if (len(script) * 7 + op[1]) % 5 == 0:
+                # (no draw from the stream: the other cases stay what they were)
+                script.append([t, prio, ['reuse', op[1]]])
         else:
             op = ['add', rng.choice(names), rng.choice(adds)]
         script.append([t, prio, op])
